@@ -66,7 +66,10 @@ CLAIMS = {
         technique="Coq proofs of the overflow/argument guards in mod-2^64 arithmetic (calloc product test exact; large-object wrap test complete for every size and alignment); fault enumeration over the raw-allocation trace of memory pools with a raw-memory ledger",
         text="Proved: scalable_calloc refuses exactly the overflowing products; a large request that passes getFromLLOCache's test was computed with no wrap in size+headers+alignment nor in alignToBin. "
              "The guard model is compared with malloc/calloc/posix_memalign/aligned_malloc near SIZE_MAX. Pools: every index k of the raw-allocation trace is refused once; live blocks stay intact, "
-             "blocks stay inside own raw memory, pool_identify is right, every raw region is returned exactly once, fixed pools call the raw allocator once, allocation recovers afterwards.",
+             "blocks stay inside own raw memory, pool_identify is right, every raw region is returned exactly once, fixed pools call the raw allocator once, allocation recovers afterwards; fixed pools over a misaligned 2 MB buffer "
+             "are filled to exhaustion, holes punched and small objects requested. Realloc near SIZE_MAX (remap guard, proved, defect fixed 8db2ca4). C++ entry points: tbb::cache_aligned_resource padding arithmetic modelled and proved "
+             "(cache_aligned_resource_guard_complete; unguarded version refuted — defect fixed eb338c8), tied by the request forwarded to a probing upstream resource; cache_aligned_allocator / tbb_allocator / scalable_allocator / "
+             "scalable_memory_resource throw std::bad_alloc for every unsatisfiable size (oracle).",
         note="The pool part is fault enumeration with an oracle, not a theorem (the backend is not modelled). OS-level refusal (mmap failure) is injected only through pool raw callbacks, not for the default pool.",
         ref="4/C18"),
     "C07": dict(
